@@ -34,6 +34,7 @@ func (f *MemFile) Chdir() error {
 		return fs.ErrInvalid
 	}
 
+	avfs.VerifBeforeLock(&f.mu, true)
 	f.mu.Lock()
 	defer f.mu.Unlock()
 
@@ -69,6 +70,7 @@ func (f *MemFile) Chmod(mode fs.FileMode) error {
 		return fs.ErrInvalid
 	}
 
+	avfs.VerifBeforeLock(&f.mu, true)
 	f.mu.Lock()
 	defer f.mu.Unlock()
 
@@ -104,6 +106,7 @@ func (f *MemFile) Chown(uid, gid int) error {
 		return fs.ErrInvalid
 	}
 
+	avfs.VerifBeforeLock(&f.mu, true)
 	f.mu.Lock()
 	defer f.mu.Unlock()
 
@@ -143,6 +146,7 @@ func (f *MemFile) Close() error {
 		return fs.ErrInvalid
 	}
 
+	avfs.VerifBeforeLock(&f.mu, true)
 	f.mu.Lock()
 	defer f.mu.Unlock()
 
@@ -174,6 +178,7 @@ func (f *MemFile) Name() string {
 		panic("")
 	}
 
+	avfs.VerifBeforeLock(&f.mu, false)
 	f.mu.RLock()
 	name := f.name
 	f.mu.RUnlock()
@@ -191,6 +196,7 @@ func (f *MemFile) Read(b []byte) (n int, err error) {
 		return 0, fs.ErrInvalid
 	}
 
+	avfs.VerifBeforeLock(&f.mu, true)
 	f.mu.Lock()
 	defer f.mu.Unlock()
 
@@ -216,6 +222,7 @@ func (f *MemFile) Read(b []byte) (n int, err error) {
 		return 0, &fs.PathError{Op: op, Path: f.name, Err: f.vfs.err.BadFileDesc}
 	}
 
+	avfs.VerifBeforeLock(&nd.mu, false)
 	nd.mu.RLock()
 	n = copy(b, nd.data[f.at:])
 	nd.mu.RUnlock()
@@ -240,6 +247,7 @@ func (f *MemFile) ReadAt(b []byte, off int64) (n int, err error) {
 		return 0, fs.ErrInvalid
 	}
 
+	avfs.VerifBeforeLock(&f.mu, false)
 	f.mu.RLock()
 	defer f.mu.RUnlock()
 
@@ -269,6 +277,7 @@ func (f *MemFile) ReadAt(b []byte, off int64) (n int, err error) {
 		return 0, &fs.PathError{Op: op, Path: f.name, Err: f.vfs.err.BadFileDesc}
 	}
 
+	avfs.VerifBeforeLock(&nd.mu, false)
 	nd.mu.RLock()
 	defer nd.mu.RUnlock()
 
@@ -299,6 +308,7 @@ func (f *MemFile) ReadDir(n int) (entries []fs.DirEntry, err error) {
 		return nil, fs.ErrInvalid
 	}
 
+	avfs.VerifBeforeLock(&f.mu, true)
 	f.mu.Lock()
 	defer f.mu.Unlock()
 
@@ -326,6 +336,7 @@ func (f *MemFile) ReadDir(n int) (entries []fs.DirEntry, err error) {
 	}
 
 	if n <= 0 || f.dirEntries == nil {
+		avfs.VerifBeforeLock(&nd.mu, false)
 		nd.mu.RLock()
 		entries = nd.dirEntries()
 		nd.mu.RUnlock()
@@ -376,6 +387,7 @@ func (f *MemFile) Readdirnames(n int) (names []string, err error) {
 		return nil, fs.ErrInvalid
 	}
 
+	avfs.VerifBeforeLock(&f.mu, true)
 	f.mu.Lock()
 	defer f.mu.Unlock()
 
@@ -403,6 +415,7 @@ func (f *MemFile) Readdirnames(n int) (names []string, err error) {
 	}
 
 	if n <= 0 || f.dirNames == nil {
+		avfs.VerifBeforeLock(&nd.mu, false)
 		nd.mu.RLock()
 		names = nd.dirNames()
 		nd.mu.RUnlock()
@@ -448,6 +461,7 @@ func (f *MemFile) Seek(offset int64, whence int) (ret int64, err error) {
 		return 0, fs.ErrInvalid
 	}
 
+	avfs.VerifBeforeLock(&f.mu, true)
 	f.mu.Lock()
 	defer f.mu.Unlock()
 
@@ -464,6 +478,7 @@ func (f *MemFile) Seek(offset int64, whence int) (ret int64, err error) {
 		return 0, nil
 	}
 
+	avfs.VerifBeforeLock(&nd.mu, false)
 	nd.mu.RLock()
 	size := int64(len(nd.data))
 	nd.mu.RUnlock()
@@ -505,6 +520,7 @@ func (f *MemFile) Stat() (info fs.FileInfo, err error) {
 		return nil, fs.ErrInvalid
 	}
 
+	avfs.VerifBeforeLock(&f.mu, false)
 	f.mu.RLock()
 	defer f.mu.RUnlock()
 
@@ -542,6 +558,7 @@ func (f *MemFile) Sync() error {
 		return fs.ErrInvalid
 	}
 
+	avfs.VerifBeforeLock(&f.mu, false)
 	f.mu.RLock()
 	defer f.mu.RUnlock()
 
@@ -566,6 +583,7 @@ func (f *MemFile) Truncate(size int64) error {
 		return fs.ErrInvalid
 	}
 
+	avfs.VerifBeforeLock(&f.mu, false)
 	f.mu.RLock()
 	defer f.mu.RUnlock()
 
@@ -600,6 +618,7 @@ func (f *MemFile) Truncate(size int64) error {
 		return &fs.PathError{Op: op, Path: f.name, Err: err}
 	}
 
+	avfs.VerifBeforeLock(&nd.mu, true)
 	nd.mu.Lock()
 
 	nd.truncate(size)
@@ -620,6 +639,7 @@ func (f *MemFile) Write(b []byte) (n int, err error) {
 		return 0, fs.ErrInvalid
 	}
 
+	avfs.VerifBeforeLock(&f.mu, true)
 	f.mu.Lock()
 	defer f.mu.Unlock()
 
@@ -650,6 +670,7 @@ func (f *MemFile) Write(b []byte) (n int, err error) {
 		return 0, &fs.PathError{Op: op, Path: f.name, Err: err}
 	}
 
+	avfs.VerifBeforeLock(&nd.mu, true)
 	nd.mu.Lock()
 
 	n = copy(nd.data[f.at:], b)
@@ -681,6 +702,7 @@ func (f *MemFile) WriteAt(b []byte, off int64) (n int, err error) {
 		return 0, &fs.PathError{Op: "writeat", Path: f.name, Err: avfs.ErrNegativeOffset}
 	}
 
+	avfs.VerifBeforeLock(&f.mu, false)
 	f.mu.RLock()
 	defer f.mu.RUnlock()
 
@@ -711,6 +733,7 @@ func (f *MemFile) WriteAt(b []byte, off int64) (n int, err error) {
 		return 0, &fs.PathError{Op: op, Path: f.name, Err: err}
 	}
 
+	avfs.VerifBeforeLock(&nd.mu, true)
 	nd.mu.Lock()
 
 	diff := off + int64(len(b)) - nd.size()
